@@ -364,6 +364,17 @@ def corpus_docs():
         ("<", ">", f"/* < tl to=\"2001-01-03 23:59:59\"\n * c=\"New Year's greetings.\"\n * > */\n<h1>x</h1>\n/* < /tl > */\n"),
         ("/* <", "> */", f"/* < tl to=\"2001-01-03 23:59:59\"\n * c=\"New Year's greetings = 'skip' unwrap-block /* < .\"\n * > */\n<h1>x</h1>\n/* < /tl > */\n"),
     ]
+    w += [
+        # several ready elements on the wrapper line of an unwrap-block, a nested unwrap-block, indented code behind it
+        # and one more removal (the pair index of the nested opener)
+        ("<", ">", f"head\n<tl {e} unwrap-block>\n{{ <tl {e}>a</tl> <tl {e}>b</tl>\n  keep1\n  <tl {e} unwrap-block>\n  {{\n    inner\n  }}\n  </tl>\n}}\n</tl>\n"
+                   f"class X {{\n    fn a() {{\n        deep\n    }}\n}}\n<tl {e}>gone</tl>\ntail\n"),
+        # a name followed by a word that begins with a quote (a forgotten '='): a valueless attribute and another name
+        ("/* <", "> */", f"let a = 1;\n/* <rm name=\"x\"> */\nlet b = 2;\n/* </rm> */\n/* <tl to \"2001-01-01 00:00:00\"> */\nlet c = 3;\n/* </tl> */\n"
+                         f"/* <rm name 'x'> */\nlet d = 4;\n/* </rm> */\nlet e = 5;\n"),
+        # the whole file is one element
+        ("<", ">", f"<tl {e}></tl>"), ("<", ">", f"<tl {f}><tl {e}>old</tl></tl>"), ("<", ">", f"<tl {e}>x</tl>"),
+    ]
     for ds, de, s in w:
         docs.append((ds, de, s, c))
     return docs
